@@ -22,8 +22,15 @@ PARTIAL = ('proved (Properties/C10.v, all closed under the global context): C10_
            'the two answers and the factor that did not receive the singular values is an isometry -- \'right\': A[i] left-isometric, \'left\': A[i+1] right-isometric; '
            'LAPACK contract for the final QR of each sweep); induction over the two-site schedule with the two-site mixed-canonical invariant. Also the per-local-problem '
            'versions, which energy a sweep records, the call schedules of both algorithms; non-vacuity of both whole-run theorems on rational instances (L = 2 single-site, '
-           'L = 3 two-site with an exact rational split oracle). NOT proved: reaching the exact ground energy on a complete manifold (spectral theory), splits with tol > 0, that '
-           'floating-point Lanczos meets the Ritz contract (measured), that the floating-point SVD split meets the exact-split contract (at tol = 0 this is what '
+           'L = 3 two-site with an exact rational split oracle). '
+           'LINK (C10_dmrg1_whole_run_lapack, Proofs/Link*.v): the single-site whole-run theorem with the eigensolver argument instantiated by the concrete Krylov-based '
+           'solver keig_lanczos = _minimize_local_energy (eigh_krylov of Model/Krylov.v, numeig = 1, over the row-major flatten/unflatten bridge): the only remaining '
+           'hypotheses are LAPACK-level contracts on the calls actually issued (block QR; numpy.linalg.norm, sound breakdown test, eigh_tridiagonal with U^T U = I, '
+           'T U = U diag(w), ascending w, (U U^T) e_0 = e_0), right-isometry of orthonormalize, Hermiticity of the MPO (word-level, as in C04_heff_hermitian) and H >= lam for the '
+           'variational clause; self-adjointness of every local effective Hamiltonian and non-vanishing of every start tensor are derived from the sweep invariant; per call: '
+           'C10_keig_from_krylov (also covers the merged two-site calls). The two-site whole-run instantiation (C10_dmrg2_whole_run_lapack) is NOT done: statement kept as a comment. '
+           'NOT proved: reaching the exact ground energy on a complete manifold (spectral theory), splits with tol > 0, that the '
+           'FLOATING-POINT primitives (LAPACK QR / eigh_tridiagonal / norm, hence the floating-point Lanczos) meet their exact contracts (measured), that the floating-point SVD split meets the exact-split contract (at tol = 0 this is what '
            'C03_merge_split_id and C12_block_svd_spec prove of the split model in exact arithmetic; here only its consequences are measured), rounding (measured by prop()); '
            'H is an argument no model function returns or updates')
 ASSUMPTIONS = SR.ASSUMPTIONS
